@@ -1,12 +1,46 @@
 import XModel.RefsLift
 import XModel.ManagerC11
 import XModel.PickleHeap
+import XModel.ManagerPickle
 /-!
 # C12 — a pickled manager restores to an independent, behaviourally identical copy
-The pickle protocol is the model: reduce every node to (class, constructor arguments), rebuild by
-calling the class.  Tie A checks `Generated.tbl.ValidReduce` on every run; `ValidReduce` is closed over
-the class universe `RefsTable.classSlots` (every expression class) and `RefsTable.refClasses` (`Ref`,
-`ObjectAttrRef`): each must have a row saying own class / constructor arguments in order / rebuilds equal.
+
+Property: `pickle.loads(pickle.dumps(manager))` succeeds for every manager whose containers are picklable; the restored
+manager has the same definitions, passes its consistency check, and produces the same container contents as the
+original under any further sequence of assignments, while assignments to either one never affect the other.
+
+The property is COMPOSED OF THREE PIECES, proved in three places; no single Lean theorem states all of it.
+
+1. **Node round trip** (expression nodes and refs rebuilt by `cls(*args)` from `__reduce__`): a per-run obligation
+   of Tie A.  The reduce / rebuild table is regenerated from the source on every run; Tie A checks
+   `Generated.tbl.ValidReduce`, closed over the class universe `RefsTable.classSlots` (every expression class) and
+   `RefsTable.refClasses` (`Ref`, `ObjectAttrRef`): each must have a row saying own class / constructor arguments in
+   order / rebuilds equal.  `C12_reduce_covers_universe`, `C12_reduce_rebuild`, `C12_reduce_rebuild_rows` turn a valid
+   table into "every tree of the universe round-trips".
+2. **Manager state** (`XModel/ManagerPickle.lean`): `Manager.pickleM : MState → MState` transcribes what pickling a
+   `Manager`'s `__dict__` does — containers deep-copied, task table rebuilt task by task (each expression node by
+   node; on the model's `Expr` that rebuild is the identity, which is JUSTIFIED BY piece 1, not a proof of it), the
+   four index dictionaries rebuilt by re-inserting their items in the stored order (the OLD indices, not regenerated
+   ones), freeze flag and knob memory copied, event log empty.  Plain result (`C12_pickled_manager_is_the_original`):
+   under the index invariant `pickleM s = { s with trace := [] }`.  Consequences: `C12_pickled_manager_same_table`,
+   `C12_pickled_manager_passes_verify`, `C12_pickled_manager_same_dump`, `C12_pickled_manager_same_behaviour` (the
+   composition of `C03_self_check_passes` / the `SameTable` bisimulation with the pickle that the second review found
+   missing), `C12_pickled_manager_same_outcomes_per_call`.
+3. **Aliasing** ("assignments to either one never affect the other"): NOT a statement of the functional manager model,
+   where two states are two values.  Proved on the heap model `XModel/PickleHeap.lean` (`C12_copies_independent`,
+   `C12_no_shared_object`, `C12_sharing_preserved`, `C12_restored_isomorphic` …: containers as heap objects, arbitrary
+   sharing and cycles, `deepCopy` into fresh addresses) and tied to the real pickling of a real `Manager`'s containers
+   by the correspondence suite `heap`.  The heap model's "assignment" is a bare slot write (no tasks, no propagation);
+   propagation is piece 2.  The two models meet in one fact only: the `store` of `pickleM s` is the value of the
+   restored containers, equal to the value of the originals (`C12_restored_isomorphic`).
+
+ASSUMED, not proved in Lean: pickle re-inserts dictionary items in their stored order; `hash` / `==` of rebuilt refs
+agree with the originals' (C06), so the rebuilt dictionaries have the same keys; `Manager` pickles its whole `__dict__`
+(no `__getstate__` dropping a field); the containers are picklable (the property's premise — `pickleM` is total, "pickle
+succeeds" is not expressed).  Outside all models: class- / module-level state shared between managers; functions held
+by `CallRef` / `FunctionTask`, pickled by reference.
+
+Which tree: piece 2 rests on `MInv`, i.e. on the repaired `unregister` (as C03 / C11 / C17 / C18 / C20 do).
 -/
 namespace Properties.C12
 open RefsTable
@@ -69,12 +103,13 @@ example : unpickleN sn (pickleN [⟨"BuiltinRef", true, false, false⟩] (.node 
     = .node "BuiltinRef" [] := rfl
 
 open Manager in
-/-- behavioural identity, CONDITIONAL: this is `reindex_same_behaviour` (the same statement as
+/-- (OLDER, one assignment, conditional — superseded by `C12_pickled_manager_same_behaviour` below, which discharges the
+    hypotheses about the restored manager through `pickleM`.)
+    behavioural identity, CONDITIONAL: this is `reindex_same_behaviour` (the same statement as
     `C11_same_definitions_same_behaviour`).  Its hypotheses say that the restored manager holds the same task table over
-    equal containers with indices satisfying the index invariant — that is NOT proved here: nothing in the model
-    describes `Manager.__getstate__` / pickling of the task table, the containers or the indices (`C12_reduce_rebuild`
-    is about expression nodes only); on the implementation those hypotheses are what the oracle checks after every
-    round trip (dump equality, `verify()`, index supports).  Given them, every assignment to a plain location in C01's
+    equal containers with indices satisfying the index invariant — NOT proved in this theorem (for `m := (pickleM s).idx`
+    they are `C12_pickled_manager_same_table`); on the implementation those hypotheses are what the oracle checks after
+    every round trip (dump equality, `verify()`, index supports).  Given them, every assignment to a plain location in C01's
     scope ends with the same container contents and definitions as on the original, under any legal schedules.
     Independence (the copy shares no state) is immediate in the model, whose states are values; on the
     implementation it is the oracle `copy-affects-original`. -/
@@ -87,6 +122,110 @@ theorem C12_restored_same_behaviour (sched1 sched2 : Sched) (s : MState) (m : In
     ∃ s2, setValue sched2 { s with idx := m } p v = (s2, none) ∧ s2.store = s1.store ∧ s2.defs = s1.defs :=
   reindex_same_behaviour sched1 sched2 s m p v hi hi' hc hnodef sc hvs1 hvs2 s1 hok
 
+
+
+/-! ### the manager state through the round trip (XModel/ManagerPickle.lean)
+
+Each docstring below repeats where the three pieces of C12 are proved:
+(1) node round trip — Tie A obligation (`C12_reduce_rebuild`); (2) manager state — HERE; (3) aliasing — `PickleHeap`
+(`C12_copies_independent`) + suite `heap`.  Assumed: pickle re-inserts dict entries in order; hash / eq of rebuilt refs
+agree with the originals (C06). -/
+
+open Manager in
+/-- **what the model of the round trip is, plainly.**  `pickleM` deep-copies the containers, rebuilds the task
+    dictionary task by task and expression node by node, rebuilds the four index dictionaries (and every `RefCount`
+    row) by re-inserting their items in the stored order, copies flag / knob memory / fault counter and starts with an
+    empty event log.  For a state satisfying the index invariant the result is the original with an empty event log —
+    the SAME index tables (entries, counts, order), not regenerated ones.
+    Pieces of C12: (1) node round trip: the rebuild is the identity on the model's `Expr` BECAUSE of the Tie A
+    obligation `C12_reduce_rebuild`, which this theorem does not prove; (2) manager state: here; (3) aliasing: not
+    here — `PickleHeap` + suite `heap`.  Assumed: pickle re-inserts dict entries in order (that is the definition
+    `rebuildDict`); hash / eq of rebuilt refs agree with the originals (C06; on the model a ref is a `Path`).
+    Hypothesis `MInv s`: used only as "no dictionary lists a key twice" — true of every Python dictionary, not of every
+    association list (`PickleExample.dup_rows`: needed). -/
+theorem C12_pickled_manager_is_the_original (s : MState) (hi : MInv s) :
+    pickleM s = { s with trace := [] } :=
+  pickleM_eq_resetT s hi
+
+open Manager in
+/-- **the restored manager has the same definitions** — and the same containers (as a value), freeze flag, knob memory;
+    both managers satisfy the index invariant (`SameTable`), and the index tables are equal.
+    Pieces of C12: (1) node round trip: Tie A obligation (`C12_reduce_rebuild`), assumed here in the form
+    "`rebuildExpr` is the identity on `Expr`"; (2) manager state: HERE; (3) aliasing: `PickleHeap`
+    (`C12_copies_independent`) + suite `heap`, not here.  Assumed: pickle re-inserts dict entries in order; hash / eq
+    of rebuilt refs agree with the originals (C06).
+    Hypothesis `MInv s`: the state is one the API produces from the empty manager (`applyAll_MInv`); needed (see
+    `C12_pickled_manager_is_the_original`). -/
+theorem C12_pickled_manager_same_table (s : MState) (hi : MInv s) :
+    SameTable s (pickleM s) ∧ (pickleM s).idx = s.idx ∧ dump (pickleM s) = dump s :=
+  ⟨pickleM_sameTable s hi, (pickleM_fields s hi).2.2.1, pickleM_dump s hi⟩
+
+open Manager in
+/-- **the restored manager passes its consistency check**: `verify()` on the restored manager raises nothing
+    (`verify_passes`, i.e. `C03_self_check_passes`, composed with the round trip).
+    Pieces of C12: (1) node round trip: Tie A obligation; (2) manager state: HERE; (3) aliasing: `PickleHeap` + suite
+    `heap`.  Assumed: pickle re-inserts dict entries in order; hash / eq of rebuilt refs agree with the originals
+    (C06).  Hypothesis `MInv s`: as above. -/
+theorem C12_pickled_manager_passes_verify (s : MState) (hi : MInv s) : (verify (pickleM s)).2 = none :=
+  pickleM_verify s hi
+
+open Manager in
+/-- **the restored manager dumps the same definitions** and answers every query like the original -/
+theorem C12_pickled_manager_same_dump (s : MState) (hi : MInv s) :
+    dump (pickleM s) = dump s ∧ QueriesAgree s (pickleM s) :=
+  ⟨pickleM_dump s hi, pickleM_queries s hi⟩
+
+open Manager in
+/-- **the restored manager produces the same container contents as the original under any further sequence of
+    calls**: for every history `cs` in the scope `BisimRun'`, run on the original with a scheduler `sched1` and on the
+    restored manager with ANY OTHER scheduler `sched2` (a scheduler = the iteration order of Python's sets; the restored
+    manager may live in a process with another hash seed),
+    * call by call the same error (or none), and after every call the two states are `SameTable` (same container
+      contents, same definitions, same flag and knob memory, both index states valid) — `RelatedOutcomes`;
+    * equal lists of errors;
+    * `SameTable` final states;
+    * equal answers to every query at the end (`QueriesAgree`).
+    This is the `SameTable` bisimulation (`bisim_history'`, `bisim_history_errors'`, `bisim_history_final'`,
+    `bisim_history_queries'`) composed with `C12_pickled_manager_same_table`.
+    Pieces of C12: (1) node round trip: Tie A obligation (`C12_reduce_rebuild`); (2) manager state: HERE; (3) aliasing
+    ("assignments to either one never affect the other"): NOT here and not statable here — `PickleHeap`
+    (`C12_copies_independent`) + suite `heap`.  Assumed: pickle re-inserts dict entries in order; hash / eq of rebuilt
+    refs agree with the originals (C06).
+    Hypotheses: `MInv s` (reachable state; needed).  `BisimRun'` — the scope, call by call, in the pair of states where
+    the call is made (`CallOK'`): an assignment is covered when it raises before any task runs, or both sides run the
+    triggered tasks in the same order (any task kinds, completing or raising), or it is in `ScopeT`, both schedulers
+    return a legal order and it completes on the original; `register` needs a fresh id and duplicate-free declared
+    sets; every other call is unrestricted.  NOT covered: a triggered linear knob run in two different orders; an
+    assignment raising inside a task under two different orders (then errors and contents may differ,
+    `FailExample.fail_differently`).  `Manager.pickleM_scope_of_test`: the executable test `bisimRunB'` implies the
+    hypothesis; `PickleExample.hist_ok` is an instance with two different schedulers. -/
+theorem C12_pickled_manager_same_behaviour (sched1 sched2 : Sched) (s : MState) (hi : MInv s) (cs : List Call)
+    (hg : BisimRun' sched1 sched2 s (pickleM s) cs) :
+    RelatedOutcomes (outcomes sched1 s cs) (outcomes sched2 (pickleM s) cs) ∧
+    (outcomes sched2 (pickleM s) cs).map (·.2) = (outcomes sched1 s cs).map (·.2) ∧
+    SameTable (applyAll sched1 s cs) (applyAll sched2 (pickleM s) cs) ∧
+    QueriesAgree (applyAll sched1 s cs) (applyAll sched2 (pickleM s) cs) :=
+  pickleM_same_behaviour sched1 sched2 s hi cs hg
+
+open Manager in
+/-- the same in the driver's form, for a manager pickled between two calls (`s.trace = []`): the scope hypothesis is
+    about the ORIGINAL alone (`GoodRunR`: one manager, two schedulers) and the two lists of (state, error) outcomes —
+    event log cleared before each call — are EQUAL.  On the functional model this is C20 call by call
+    (`history_per_call`): there the restored manager is the original (`pickleM s = s`).  Pieces / assumptions as in
+    `C12_pickled_manager_same_behaviour`. -/
+theorem C12_pickled_manager_same_outcomes_per_call (sched1 sched2 : Sched) (s : MState) (hi : MInv s)
+    (ht : s.trace = []) (cs : List Call) (hg : GoodRunR sched1 sched2 s cs) :
+    outcomesR sched2 (pickleM s) cs = outcomesR sched1 s cs :=
+  pickleM_history_per_call sched1 sched2 s hi ht cs hg
+
+/-- non-vacuity: the manager of `PickleExample` (two definitions, a function task), its restored copy, a six-call
+    history, two schedulers that order the triggered tasks differently -/
+example : Manager.RelatedOutcomes (Manager.outcomes id PickleExample.sP PickleExample.hist)
+      (Manager.outcomes PickleExample.fLast (Manager.pickleM PickleExample.sP) PickleExample.hist) :=
+  (C12_pickled_manager_same_behaviour id PickleExample.fLast PickleExample.sP PickleExample.sP_inv PickleExample.hist
+    PickleExample.hist_ok).1
+example : (Manager.verify (Manager.pickleM PickleExample.sP)).2 = none :=
+  C12_pickled_manager_passes_verify PickleExample.sP PickleExample.sP_inv
 
 /-! ### independence and isomorphism on a heap of mutable objects (XModel/PickleHeap.lean)
 
